@@ -893,6 +893,39 @@ fn main() {
     let max = tier.pick(4, 5);
     let mut seqs = Vec::new();
     enumerate(&mut Vec::new(), &enabled_after, max, &mut seqs);
+    let seqs = std::sync::Arc::new(seqs);
+    // termination watchdog: allocation-free while it waits (this process runs under the auditing allocator): the main
+    // thread publishes the index of the sequence it executes and a heartbeat, the watchdog only reads two atomics
+    static CURRENT: std::sync::atomic::AtomicUsize = std::sync::atomic::AtomicUsize::new(usize::MAX);
+    static BEAT_MS: std::sync::atomic::AtomicU64 = std::sync::atomic::AtomicU64::new(0);
+    let t0 = std::time::Instant::now();
+    {
+        let seqs = seqs.clone();
+        let limit_ms = verif_mc::common::watch_limit_s() * 1000;
+        let tier_name = tier.name();
+        std::thread::spawn(move || loop {
+            std::thread::sleep(std::time::Duration::from_millis(500));
+            let cur = CURRENT.load(Ordering::Relaxed);
+            let now = t0.elapsed().as_millis() as u64;
+            if cur != usize::MAX && now.saturating_sub(BEAT_MS.load(Ordering::Relaxed)) > limit_ms {
+                let seq = &seqs[cur];
+                let sig = "does-not-terminate".to_string();
+                let dir = verif_mc::common::verif_root().join("replays");
+                let _ = std::fs::create_dir_all(&dir);
+                let path = dir.join(format!("C18-nonterminating-{cur}.json"));
+                let what = format!("a call of the sequence {seq:?} did not return within {}s", limit_ms / 1000);
+                let doc = json!({"property": "C18", "signature": sig, "what": what, "case": {"sequence": seq}});
+                let _ = std::fs::write(&path, serde_json::to_string_pretty(&doc).unwrap());
+                let evidence = json!({"property_id": "C18", "tier": tier_name, "seed": 0, "level": "model_checking", "wall_s": 0.0, "violations": 1,
+                    "coverage": {"evaluations": cur, "states": 1, "transitions": 1, "traces_validated_against_impl": 1, "samples": [format!("{seq:?}")], "exhaustive": false}});
+                let _ = std::fs::write(verif_mc::common::verif_root().join("evidence").join("C18.json"), serde_json::to_string_pretty(&evidence).unwrap());
+                println!("VIOLATION property=C18 replay={}", path.display());
+                println!("  signature: {sig}");
+                println!("  what: {what}");
+                std::process::exit(1);
+            }
+        });
+    }
     let mut states: BTreeSet<String> = BTreeSet::new();
     let mut transitions = 0u64;
     let samples = Samples::new(6);
@@ -903,6 +936,8 @@ fn main() {
             ctx.set_capped(format!("wall budget {}s: {} of {} sequences", ctx.budget_s(), i, seqs.len()));
             break;
         }
+        CURRENT.store(i, Ordering::Relaxed);
+        BEAT_MS.store(t0.elapsed().as_millis() as u64, Ordering::Relaxed);
         // the slot model is optimistic about filter creation; skip sequences that are ill-typed at run time
         let well_typed = unsafe {
             let mut w = World::new();
@@ -941,6 +976,7 @@ fn main() {
             samples.offer(|| json!(seq.iter().map(|c| format!("{c:?}")).collect::<Vec<_>>()));
         }
     }
+    CURRENT.store(usize::MAX, Ordering::Relaxed);
     let mut cov = Coverage::new();
     cov.set("states", json!(states.len() + 1))
         .set("transitions", json!(transitions))
